@@ -62,7 +62,13 @@ def get_generated(w: GW.Wsdl, files: dict):
     if ent is not None:
         _GEN.move_to_end(key)
         return ent
-    g = CG.generate(files, ["svc.wsdl"])
+    opts = None
+    if len([f for f in files if f.endswith(".wsdl")]) > 1 and files["svc.wsdl"].count("<xs:schema") and files["abstract.wsdl"].count("<xs:schema"):
+        # schemas in both WSDL documents make the two generated modules need each other; the documented answer to circular imports is a
+        # structure style that is safe from them (docs/codegen/config.md)
+        from xsdata.models.config import StructureStyle
+        opts = {"structure_style": StructureStyle.SINGLE_PACKAGE}
+    g = CG.generate(files, ["svc.wsdl"], options=opts)
     ent = {"gen": g, "services": {}, "problem": None, "all_services": []}
     if g.error is not None:
         ent["problem"] = ("generation-fails", f"{type(g.error).__name__}: {g.error}")
@@ -300,7 +306,11 @@ def h_soap(ch: Chooser, vec: list, maxfeat: int, maxops: int):
         if a[0] == "exc":
             return bad("request-class-unusable", f"{a[1]!r}", op)
         arg = a[1]
-    s = call(client.send, arg, dict(user_headers) if user_headers is not None else None)
+    given_headers = dict(user_headers) if user_headers is not None else None
+    s = call(client.send, arg, given_headers)
+    if user_headers is not None and given_headers != dict(user_headers):
+        # the caller's dictionary is the caller's: the next call made with it must not inherit this operation's SOAPAction / content type
+        return bad("client-writes-into-the-callers-headers", f"headers passed {dict(user_headers)!r}, afterwards {given_headers!r}", op)
     if len(rec.calls) != 1:
         if s[0] == "exc":
             return bad("client-send-fails-before-posting", f"{s[1]!r}\nrequest {arg!r}", op, exc=s[1], as_dict=as_dict)
